@@ -71,6 +71,10 @@ func (c *c18Case) draw() (tensor.Tensor, error) {
 
 // check18 draws about n values (several calls) and tests them against the specified distribution.
 func check18(c *c18Case, n int) string {
+	return run.Guard(func() string { return check18u(c, n) })
+}
+
+func check18u(c *c18Case, n int) string {
 	p1, p2 := c.P1.Eval(nil, 1).V, c.P2.Eval(nil, 1).V
 	per := bind.Prod(c.Dims)
 	calls := n/per + 2
@@ -213,6 +217,10 @@ func check18(c *c18Case, n int) string {
 // interleave18 alternates draws from a (a tensor with an odd number of elements where possible) and b, and tests the
 // first and the last element of b's tensors against b's distribution.
 func interleave18(a, b *c18Case, rounds int) string {
+	return run.Guard(func() string { return interleave18u(a, b, rounds) })
+}
+
+func interleave18u(a, b *c18Case, rounds int) string {
 	p1, p2 := b.P1.Eval(nil, 1).V, b.P2.Eval(nil, 1).V
 	var mu, sd float64
 	if b.Dist == "uniform" {
